@@ -31,7 +31,8 @@ From Coq.Strings Require Import Byte.
 From SeataV Require Import Base.Bytes At.Db At.Image At.LockKey At.Lock At.LockCases.
 Import ListNotations. Open Scope nat_scope.
 """
-ERR = {31: "lock key text sent to the coordinator differs from the model's text of the recorded image",
+ERR = {35: "the register text of a multi-statement local transaction is not the set of the statements' key texts",
+       31: "lock key text sent to the coordinator differs from the model's text of the recorded image",
        32: "a row changed by the local transaction is not named by the lock keys sent (cover)",
        33: "select-for-update journal (savepoint, key query, business query, lock query, rollback-to) differs from the model's",
        34: "rows handed out by select-for-update differ from the model's"}
@@ -88,7 +89,7 @@ def analyze_dml(case, sm):
         new = [u for u in st.get("undo") or [] if u["branch_id"] not in prev]
         items = [it for u in new for it in u.get("items") or []]
         if items:
-            img = items[0]["after"] if sm["kind"] == "insert" else items[0]["before"]
+            img = items[0]["after"] if sm["kind"] in ("insert", "upsert") else items[0]["before"]
             idx = {n.lower(): i for i, n in enumerate(names)}
             rows = [[(idx[c["name"].lower()], U.canon_tv(c["value"])) for c in row if c["name"].lower() in idx] for row in (img or {}).get("rows") or []]
             res["lcase"] = "{| l_table := %s; l_pk := %s; l_rows := %s; l_changed := %s; l_obs := %s |}" % (
@@ -141,6 +142,47 @@ def analyze_sfu(case, sm):
     return res
 
 
+def analyze_tx(case):
+    """one explicit local transaction of several statements: cover over the whole row diff, register text vs the images"""
+    meta, tr = case["meta"], case["trace"]
+    ex, pk, table = meta["extra"], meta["pk"], meta["table"]
+    names = [c["name"] for c in meta["cols"]]
+    kinds = [meta["cols"][i]["kind"] for i in pk]
+    res = {"oracle": [], "tcase": None}
+    d0 = U.dump_table(U.step_at(tr, ex["dump_pre"]), table)
+    d1 = U.dump_table(U.step_at(tr, ex["dump_post"]), table)
+    k0, k1 = dict(U.keyed(d0, pk)), dict(U.keyed(d1, pk))
+    changed = [k for k in k0 if k1.get(k) != k0[k]] + [k for k in k1 if k not in k0]
+    cm = U.step_at(tr, ex["commit_path"])
+    regs = tc_events(tr, cm["seq_from"], cm["seq_to"], "BranchRegister")
+    granted = [r for r in regs if r["outcome"] == "ok"]
+    sent = [k for r in granted for k in parse_key_text_multi(r.get("lock_key") or "", kinds)]
+    if cm["class"] != "ok" and changed:
+        res["oracle"].append("the local commit failed but rows changed")
+    for k in changed:
+        if k not in sent:
+            res["oracle"].append("row %s was written by the local transaction but no lock key sent names it (sent %s)" % (str(k), [r.get("lock_key") for r in granted]))
+    if cm["class"] == "ok" and granted:
+        new = cm.get("undo") or []
+        items = [it for u in new if u["branch_id"] == granted[0]["branch_id"] for it in u.get("items") or []]
+        idx = {n.lower(): i for i, n in enumerate(names)}
+        images = []
+        for it in items:
+            img = it["after"] if it["sql_type"] == 1 else it["before"]
+            images.append([[(idx[c["name"].lower()], U.canon_tv(c["value"])) for c in row if c["name"].lower() in idx] for row in (img or {}).get("rows") or []])
+        res["tcase"] = "{| t_table := %s; t_pk := %s; t_images := %s; t_changed := %s; t_obs := %s |}" % (
+            coq_hex(table.upper().encode().hex()), coq_list(map(str, pk)), coq_list([coq_list([irow_term(r) for r in im]) for im in images]),
+            coq_list([U.coq_vals(list(k)) for k in changed]), coq_hex((granted[0].get("lock_key") or "").encode().hex()))
+    return res
+
+
+def parse_key_text_multi(text, kinds):
+    out = []
+    for piece in [p for p in text.split(";") if p]:
+        out += parse_key_text(piece, kinds)
+    return out
+
+
 def typed(c, kind):
     if kind == "int" and c[0] == "s":
         try:
@@ -188,13 +230,13 @@ def run(chk, only=None):
         raise vlib.Broken("At/LockCases.v does not compile:\n" + out_cases[-1500:])
     secs = 0.0
     if only is None:
-        sz = dict(n=240, m=40, f=6) if chk.tier == "quick" else dict(n=5000, m=800, f=60)
+        sz = dict(n=400, m=60, f=6) if chk.tier == "quick" else dict(n=6000, m=900, f=60)
         cases, secs = U.run_atp(chk, prop="c03", seed=chk.seed, **sz)
     else:
         cases = U.replay_atp(chk, only)
     findings = vlib.known_findings("C03")
     preds = {f["pred"] for f in findings}
-    lrecs, srecs, nfail, niso, nwritten = [], [], 0, 0, 0
+    lrecs, srecs, trecs, nfail, niso, nwritten = [], [], [], 0, 0, 0
     seen = set()
 
     def flag(c, o, extra):
@@ -216,6 +258,13 @@ def run(chk, only=None):
             if o:
                 flag(c, o, {})
             continue
+        if shape == "tx":
+            r = analyze_tx(c)
+            if r["oracle"]:
+                flag(c, r["oracle"], {})
+            if r["tcase"]:
+                trecs.append((ci, 0, r))
+            continue
         for si, sm in enumerate(c["meta"]["stmts"] or []):
             r = analyze_sfu(c, sm) if sm["kind"] == "sfu" else analyze_dml(c, sm)
             listed = r["pred"] and r["pred"] in preds
@@ -228,8 +277,9 @@ def run(chk, only=None):
                 srecs.append((ci, si, r))
     mism = vlib.eval_mismatches("C03", HEADER, [r["lcase"] for _, _, r in lrecs], case_type="lcase", shard=120) if lrecs else {}
     smism = vlib.eval_mismatches("C03s", HEADER, [r["scase"] for _, _, r in srecs], fn="smismatches", case_type="scase", shard=200) if srecs else {}
+    tmism = vlib.eval_mismatches("C03t", HEADER, [r["tcase"] for _, _, r in trecs], fn="tmismatches", case_type="tcase", shard=120) if trecs else {}
     if not chk.violations:
-        for recs, mm in ((lrecs, mism), (srecs, smism)):
+        for recs, mm in ((lrecs, mism), (srecs, smism), (trecs, tmism)):
             for i in sorted(mm):
                 ci, si, r = recs[i]
                 chk.violation("correspondence between the lock-key model and the code broke (%s)" % "; ".join(ERR[e] for e in mm[i]),
@@ -255,15 +305,16 @@ def run(chk, only=None):
         dist["table." + c["meta"]["table"]] = dist.get("table." + c["meta"]["table"], 0) + 1
     chk.coverage.update({
         "trusted_base": TRUSTED,
-        "evaluations": len(lrecs) + len(srecs) + niso,
+        "evaluations": len(lrecs) + len(srecs) + len(trecs) + niso,
+        "multi_statement_transactions_in_coq": len(trecs),
         "distinct_nontrivial": vlib.distinct([r["lcase"] for _, _, r in lrecs if r["sent"] > 0] + [r["scase"] for _, _, r in srecs]),
         "rule": "%d scenarios: DML statements of the C18 generator over 5 schemas (auto-increment, string key, composite key, integer key, composite key "
                 "declared in another order than the columns) with shuffled INSERT column lists, select-for-update (autocommit / inside an explicit "
-                "transaction, with and without a foreign lock seeded at the coordinator, 0..n rows), two global transactions (RequiresNew inside an open "
-                "one) writing overlapping integer keys; non-trivial = a lock key naming >= 1 row was sent" % len(cases),
+                "transaction, with and without a foreign lock seeded at the coordinator, 0..n rows), explicit local transactions of 2-5 writes (and a write followed by a locking read of the same rows) with key pools "
+                "rich in prefix pairs (1/10/100, a/ab/abc), two global transactions (RequiresNew inside an open one) writing overlapping integer keys; non-trivial = a lock key naming >= 1 row was sent" % len(cases),
         "lock_key_cases_in_coq": len(lrecs), "sfu_cases_in_coq": len(srecs), "two_transaction_scenarios": niso,
         "rows_written_in_two_transaction_scenarios": nwritten,
-        "traces_validated_against_impl": len(lrecs) - len(mism) + len(srecs) - len(smism),
+        "traces_validated_against_impl": len(lrecs) - len(mism) + len(srecs) - len(smism) + len(trecs) - len(tmism),
         "oracle_failures_outside_findings": nfail,
         "input_distribution": dist,
         "harness_seconds": round(secs, 2),
